@@ -61,6 +61,11 @@ var curatedRoots = []Root{
 	{FEN: "8/8/8/8/8/1k6/p7/K7 w - - 0 1", Tag: "stalemate"},
 	{FEN: "1k6/8/8/8/8/8/7r/K5r1 w - - 0 1", Tag: "mated"},
 	{FEN: "R6R/3Q4/1Q4Q1/4Q3/2Q4Q/Q4Q2/pp1Q4/kBNN1KB1 w - - 0 1", Tag: "218-moves"},
+	{FEN: "Kbnn1kb1/PP1q4/q4q2/2q4q/4q3/1q4q1/3q4/r6r b - - 0 1", Tag: "218-moves-black"},
+	// material far beyond anything a game reaches: the static evaluation alone is mate-sized
+	{FEN: "R6R/3Q4/3Q4/4Q3/2Q1Q2Q/4QQ2/qp1Q4/1kNN1KB1 b - - 3 4", Tag: "heavy-single-reply"},
+	{FEN: "QQQQQQ1k/QQQ5/8/8/8/8/7p/K7 b - - 0 1", Tag: "heavy-nine-queens-down"},
+	{FEN: "qqqqqq1K/qqq5/8/8/8/8/7P/k7 w - - 0 1", Tag: "heavy-nine-queens-down-white"},
 	{FEN: "8/5P1k/5K2/8/8/8/8/8 w - - 0 1", Tag: "underpromotion"},
 	{FEN: "8/8/8/8/8/5k2/6p1/6K1 b - - 0 1", Tag: "blocked-passer"},
 	{FEN: "k7/2K5/8/8/8/8/8/1R6 w - - 0 1", Tag: "mate-in-1-single-plan"},
